@@ -39,10 +39,22 @@ pub struct Case {
     pub shape: Shape,
     pub script: Vec<u64>,
     pub draws: u8,
+    /// select from an empty population: zero total weight is still the zero-weight error (and nobody is
+    /// consulted); otherwise exactly one positive-weight member is consulted and its error reported
+    #[serde(default)]
+    pub empty_population: bool,
+}
+
+thread_local! {
+    /// set by the oracle for cases that select from an empty population
+    static EMPTY_POP: std::cell::Cell<bool> = const { std::cell::Cell::new(false) };
 }
 
 /// one individual per member (marker i returns individual i), at least 8
 fn pop_for(shape: &Shape) -> Pop<R> {
+    if EMPTY_POP.with(std::cell::Cell::get) {
+        return Vec::new();
+    }
     let members = match shape {
         Shape::Dyn(w) | Shape::DynGrown(w, _) => w.len(),
         _ => 8,
@@ -80,6 +92,8 @@ fn renumber(w: &mut WSpec, next: &mut usize) {
 }
 
 enum Outcome {
+    /// the population was empty: exactly one member was consulted and its own error came back
+    MemberFailed(usize),
     Picked(usize),
     ZeroWeight,
     OtherError(String),
@@ -100,6 +114,16 @@ where
     match r {
         Err(p) => Err(Fail::new(format!("weighted/panic:{}", panic_key(&p)), format!("selection panicked: {p}"))),
         Ok(Err((zero, dbg))) => {
+            if pop.is_empty() && !zero {
+                // nobody to select: the combination still delegates to exactly one member, whose error is reported
+                if total_calls != 1 {
+                    return Err(Fail::new(
+                        "weighted/not-exactly-one-member",
+                        format!("selecting from an empty population failed with {dbg} after {total_calls} member calls (members {called:?}); exactly one member must be consulted and its error reported"),
+                    ));
+                }
+                return Ok(Outcome::MemberFailed(called[0]));
+            }
             if total_calls != 0 {
                 return Err(Fail::new("weighted/member-called-despite-error", format!("selection failed ({dbg}) but members {called:?} were used")));
             }
@@ -127,7 +151,7 @@ where
 fn judge(weights: &[u64], out: Outcome, what: &str) -> Result<Option<usize>, Fail> {
     let total: u128 = weights.iter().map(|w| u128::from(*w)).sum();
     match out {
-        Outcome::Picked(m) => {
+        Outcome::Picked(m) | Outcome::MemberFailed(m) => {
             ensure!(total > 0, "weighted/zero-total-selected", "{what}: all weights are zero but member {m} was used");
             ensure!(
                 weights[m] > 0,
@@ -301,7 +325,13 @@ fn sample_shape<G: rand::RngCore>(shape: &Shape, n: u64, rng: &mut G) -> Result<
 
 pub fn oracle(c: &Case, probe: &mut Probe) -> Result<(), Fail> {
     let mut rng = ScriptRng::new(&c.script, 0xC13);
-    let (picks, weights, rejected) = sample_shape(&c.shape, u64::from(c.draws.max(1)), &mut rng)?;
+    EMPTY_POP.with(|e| e.set(c.empty_population));
+    let sampled = sample_shape(&c.shape, u64::from(c.draws.max(1)), &mut rng);
+    EMPTY_POP.with(|e| e.set(false));
+    let (picks, weights, rejected) = sampled?;
+    if c.empty_population {
+        probe.label("selection from an empty population");
+    }
     let positive: Vec<u64> = weights.iter().copied().filter(|w| *w > 0).collect();
     let mut distinct = positive.clone();
     distinct.sort_unstable();
@@ -364,8 +394,8 @@ fn strategy() -> BoxedStrategy<Case> {
         2 => prop::collection::vec(prop_oneof![3 => Just(0usize), 3 => Just(1usize), 2 => 2usize..12, 1 => Just(1usize << 40)], 1..=6).prop_map(Shape::Dyn),
         2 => (prop::collection::vec(prop_oneof![3 => Just(0usize), 3 => Just(1usize), 2 => 2usize..12, 1 => Just(1usize << 40)], 2..=6), 1u8..4).prop_map(|(w, u)| Shape::DynGrown(w, u)),
     ];
-    (shape, prop::collection::vec(any::<u64>(), 0..16), 1u8..6)
-        .prop_map(|(shape, script, draws)| Case { shape, script, draws })
+    (shape, prop::collection::vec(any::<u64>(), 0..16), 1u8..6, prop::bool::weighted(0.15))
+        .prop_map(|(shape, script, draws, empty_population)| Case { shape, script, draws, empty_population })
         .boxed()
 }
 
@@ -470,7 +500,7 @@ fn law_jobs(seed: u64) -> Vec<Job> {
 }
 
 pub fn run(ctx: &mut Ctx) {
-    ctx.rule = "marker selectors (member i returns individual i and counts its calls) combined by real WeightedPair trees (all binary shapes up to 5 leaves for the laws, generated shapes up to 8 leaves for the invariants), real with_item_and_weight chains of 2..5 members and DynWeighted lists (also lists that are used for selections while they are still being extended with with_selector); weights from {0,1,2..,2^31,u32::MAX-1,u32::MAX} u random. Invariants per selection: exactly one member used, never a weight-0 member, the returned individual is the chosen member's; all-zero => zero-weight error with no member used; construction fails iff a partial sum exceeds u32::MAX (also after an earlier overflow). Laws: member frequencies = w_i / sum(w). non-trivial = >= 3 members, >= 2 distinct positive weights, nesting depth >= 2 or a list used while being built (invariants); statistics with 0 < p < 1 (laws)".into();
+    ctx.rule = "marker selectors (member i returns individual i and counts its calls) combined by real WeightedPair trees (all binary shapes up to 5 leaves for the laws, generated shapes up to 8 leaves for the invariants), real with_item_and_weight chains of 2..5 members and DynWeighted lists (also lists that are used for selections while they are still being extended with with_selector); weights from {0,1,2..,2^31,u32::MAX-1,u32::MAX} u random. Invariants per selection: exactly one member used, never a weight-0 member, the returned individual is the chosen member's; all-zero => zero-weight error with no member used (also when the population is empty, where otherwise exactly one positive-weight member is consulted and its error reported); construction fails iff a partial sum exceeds u32::MAX (also after an earlier overflow). Laws: member frequencies = w_i / sum(w). non-trivial = >= 3 members, >= 2 distinct positive weights, nesting depth >= 2 or a list used while being built (invariants); statistics with 0 < p < 1 (laws)".into();
     ctx.assumptions.push("the payload of WeightSumOverflow is not compared".into());
     let (n, trials) = ctx.tier.pick((300_000u32, 400_000u64), (5_000_000, 5_000_000));
     ctx.run_prop("invariants", n, strategy, oracle);
